@@ -15,6 +15,7 @@
     plant <name4> <name4> ## <obs>        (not an API op: legacy / un-canonicalised manifest)
     corrupt <name4> ## <obs>              (not an API op: torn manifest)
     dashify <name4> ## <obs>              (not an API op: model-layer digests respelled sha256-<hex>)
+    litter <filenamehex> <contenthex> ## <obs>   (not an API op: a file of that name appears in blobs/)
     show <name4> ## <status>              (does not change the state)
 
   `<name4>` = host ns model tag.  `<obs>` is the canonical observation of result + store the driver made on
@@ -73,6 +74,7 @@ def pCreate : TP CreateReq := do
   let sys ← pOptBytes
   let lics ← listOf hex
   let params ← listOf pKV
+  let _mode ← tok   -- stream | nostream: which response path the driver used; the store effect is the same
   pure { name, src, files, template := tmpl.map (fun t => (t, tok1 != 0)), system := sys, licenses := lics, params }
 
 def showName (n : Name) : String := s!"{n.host}/{n.ns}/{n.model}:{n.tag}"
@@ -92,7 +94,8 @@ def sortStrs (l : List String) : List String := (l.toArray.qsort (· < ·)).toLi
 def obs (res : List String) (st : Store) : String :=
   let ls := sortStrs ((listed st).map showName)
   let ms := sortStrs (st.mans.map (fun (n, f) => s!"{showName n}={showMFile f}"))
-  let bs := sortStrs (st.blobs.map (fun (k, c) => s!"{k}:{c.length}"))
+  let bs := sortStrs (st.blobs.map (fun (k, c) => s!"{k}:{c.length}") ++
+    st.junk.map (fun (n, c) => s!"?{n.str}:{c.length}"))
   s!"r={"+".intercalate res};l={",".intercalate ls};m={",".intercalate ms};b={",".intercalate bs}"
 
 structure OState where
@@ -149,6 +152,15 @@ def pOp : TP Op := do
   | "dashify" => do
     let n ← pName
     pure (.dashify n)
+  | "litter" => do
+    let nb ← hex
+    let c ← hex
+    let name := bstr nb
+    let pre := String.ofList (name.toList.take 7)
+    let rest := String.ofList (name.toList.drop 7)
+    if pre == "sha256-" && isHex64 rest then pure (.litterBlob rest c)
+    else if pre == "sha256:" then pure (.litter (.colon rest) c)
+    else pure (.litter (.plain name) c)
   | _ => failure
 
 def splitObs (toks : List String) : List String × String :=
